@@ -178,6 +178,10 @@ def run(chk):
     shared.client_flush(chk, "R7")
     shared.server_reset(chk, "R8")
     shared.store_exact(chk, "R9")
+    # the frames the values travel in on the way back: the server's emission sites against the CiA 301 layouts (shared with C02.R1-R3;
+    # an empty value answered as an expedited upload is read back as four zero bytes)
+    _c02frames = __import__("sa.rules.c02", fromlist=["server_frames"])
+    _c02frames.server_frames(RuleProxy(chk, "R8"))
     # R11: entries of arrays that are described once (implicit members) are served like described ones (shared with C08.R11 / C06.R9)
     from . import c08 as _c08im
     _c08im.implicit_members(chk, "R11")
